@@ -72,7 +72,7 @@ func genC04(g *Gen) {
 		allStrings(tokAlpha[kind], full, func(s []rune) {
 			g.Run("exhaustive<="+fmt.Sprint(full)+":"+kind, []Ev{{"op": "tok", "kind": kind, "opts": []any{}, "input": cpsR(s)}})
 		})
-		core := g.Pick(5, 7)
+		core := g.Pick(5, 6)
 		allStrings(tokAlphaCore[kind], core, func(s []rune) {
 			if len(s) > full {
 				g.Run("exhaustive-core<="+fmt.Sprint(core)+":"+kind, []Ev{{"op": "tok", "kind": kind, "opts": []any{}, "input": cpsR(s)}})
